@@ -55,11 +55,19 @@ type retainedOut struct {
 // runHistory executes the calls in order, compares every result with the
 // result of the same call run alone in a fresh process, re-checks every
 // retained output at the end, and checks that no argument was modified.
+// reportAliasing: the pool's patches were decoded from buffers that were overwritten right afterwards.
+func reportAliasing(c *core.Ctx) {
+	if hist.pool != nil && hist.pool.Aliasing != "" {
+		c.Violation("decoded-patch-follows-the-buffer-it-was-decoded-from", map[string]any{"observed": hist.pool.Aliasing})
+	}
+}
+
 func runHistory(c *core.Ctx, calls []int, kind string) {
 	if hist.err != "" {
 		c.Inconclusive(hist.err)
 		return
 	}
+	reportAliasing(c)
 	p := hist.pool
 	var kept []retainedOut
 	desc := func(upto int) []string {
